@@ -3,6 +3,7 @@
 KINDS = ["fifo", "lfu", "lfuda", "lru", "mru", "rr", "tlru", "utlru", "ut_map", "ut_set"]
 CAPK = ["fifo", "lfu", "lfuda", "lru", "mru", "rr", "tlru", "utlru"]
 TTLK = ["tlru", "utlru", "ut_map", "ut_set"]
+BULKK = ["fifo", "lru", "mru", "tlru", "utlru", "ut_map", "ut_set"]  # deterministic victims: a large range stays a single candidate
 
 _EV_NAMES = [
     "EVICT", "EVICT_EXPIRED", "EVICT_MIXED", "EVICT_NONTRIV", "EVICT_AFTER_GAP", "LFU_MULTI", "AGING_PARTIAL", "AGING_IN_INSERT",
@@ -41,6 +42,8 @@ PROPS = {
         "runs": [
             {"mode": "model", "kinds": KINDS, "profiles": ["tiny", "churn", "recycle", "recycle", "shape", "ranges", "ttl-edge", "loadfactor"],
              "cases_quick": 1600, "cases_thorough": 20000, "trigger_any": bits("HIT_RECYCLED"), "typesets": 7},
+            {"mode": "model", "kinds": BULKK, "profiles": ["bulk"], "salt": "b",
+             "cases_quick": 120, "cases_thorough": 3000, "trigger_any": bits("HIT_RECYCLED", "EVICT", "EXPIRE"), "typesets": 7},
         ],
     },
     "C02": {
@@ -53,6 +56,8 @@ PROPS = {
         "runs": [
             {"mode": "model", "kinds": KINDS, "profiles": ["tiny", "churn", "recycle", "shape", "ranges", "ttl-edge", "clear", "loadfactor"],
              "cases_quick": 1600, "cases_thorough": 20000, "trigger_any": bits("EVICT", "ERASE_OK", "REAP", "CLEAR_NONEMPTY", "OVERWRITE_EXP"), "typesets": 7},
+            {"mode": "model", "kinds": BULKK, "profiles": ["bulk"], "salt": "b",
+             "cases_quick": 120, "cases_thorough": 3000, "trigger_any": bits("EVICT", "ERASE_OK", "REAP"), "typesets": 7},
         ],
     },
     "C03": {
@@ -79,6 +84,9 @@ PROPS = {
         "runs": [
             {"mode": "model", "kinds": TTLK, "profiles": ["ttl-edge", "ttl-edge", "ttl-edge", "tiny", "churn", "ranges"],
              "cases_quick": 3600, "cases_thorough": 40000, "trigger_any": bits("MISS_AT_DL", "EXPIRED_LOOKUP"), "typesets": 7},
+            # batch expiry: hundreds of entries written by one range call reach their deadline together
+            {"mode": "model", "kinds": TTLK, "profiles": ["bulk"], "salt": "b",
+             "cases_quick": 300, "cases_thorough": 8000, "trigger_any": bits("MISS_AT_DL", "EXPIRED_LOOKUP", "EXPIRE"), "typesets": 7},
         ],
     },
     "C05": {
@@ -205,6 +213,8 @@ PROPS = {
         "runs": [
             {"mode": "model", "kinds": TTLK, "profiles": ["ttl-edge", "ttl-edge", "churn", "tiny", "ranges"],
              "cases_quick": 4800, "cases_thorough": 50000, "trigger_any": bits("CLEAN_MIXED"), "typesets": 7},
+            {"mode": "model", "kinds": TTLK, "profiles": ["bulk"], "salt": "b",
+             "cases_quick": 300, "cases_thorough": 8000, "trigger_any": bits("CLEAN_MIXED", "CLEAN_SOME", "REAP"), "typesets": 7},
         ],
     },
     "C18": {
@@ -265,6 +275,9 @@ PROPS = {
              "flavours_quick": ["san"], "flavours_thorough": ["san", "asan"]},
             {"mode": "twin-range", "kinds": KINDS, "profiles": ["ranges", "recycle"], "salt": "tw",
              "cases_quick": 60, "cases_thorough": 2000, "trigger_any": bits("HIT_RECYCLED"), "typesets": 7,
+             "flavours_quick": ["san"], "flavours_thorough": ["san", "asan"]},
+            {"mode": "model", "kinds": BULKK, "profiles": ["bulk"], "salt": "b",
+             "cases_quick": 60, "cases_thorough": 1500, "trigger_any": bits("HIT_RECYCLED", "EVICT", "EXPIRE"), "typesets": 7,
              "flavours_quick": ["san"], "flavours_thorough": ["san", "asan"]},
         ],
     },
